@@ -610,6 +610,13 @@ func (in *Interp) opaqueString(what string) Str {
 }
 
 func (in *Interp) asciiMap(s Str, upper bool) Str {
+	if c, ok := s.Concrete(); ok {
+		// concrete string: the host's implementation is exact (also for non-ASCII)
+		if upper {
+			return StrOf(strings.ToUpper(c))
+		}
+		return StrOf(strings.ToLower(c))
+	}
 	out := make([]*term.Term, len(s.B))
 	for i, b := range s.B {
 		if b.IsConst() {
